@@ -6,7 +6,7 @@ import importlib, json, sys, os
 def main():
     forest, ops = sys.argv[1], json.loads(sys.argv[2])
     sys.path.insert(0, forest)
-    sys.dont_write_bytecode = True
+    sys.dont_write_bytecode = not (len(sys.argv) > 3 and sys.argv[3] == "bytecode")
     import spyreg                       # records (module, qualname, spy id) for every function a spy typechecker is applied to
     from jaxtyping import install_import_hook
     handles = {}
